@@ -236,7 +236,13 @@ def capture_psi4_grid(nx, ny, nz, lmax):
     param = {"Nx": nx, "Ny": ny, "Nz": nz, "xmin": -1.0, "ymin": -1.0, "zmin": -1.0,
              "dx": 2.0 / (nx - 1), "dy": 2.0 / (ny - 1), "dz": 2.0 / (nz - 1)}
     fd = aurel.FiniteDifference(param, verbose=False)
-    rel = aurel.AurelCore(fd, verbose=False, lmax=lmax, extract_radii=[0.5])
+    if (nx + ny + nz + lmax) % 2:
+        rel = aurel.AurelCore(fd, verbose=False, lmax=lmax, extract_radii=[0.5])
+    else:
+        # `lmax` is documented as "also attribute": set after construction, as a user may (the angular grid is a
+        # function of the lmax in force when Psi4_lm is requested)
+        rel = aurel.AurelCore(fd, verbose=False, extract_radii=[0.5])
+        rel.lmax = lmax
     rel.data["Weyl_Psi4r"] = np.zeros((nx, ny, nz))
     rel.data["Weyl_Psi4i"] = np.zeros((nx, ny, nz))
     cap = []
